@@ -838,6 +838,7 @@ func (st *c02State) checkOne(dev, devOwner *Account, chainID string, epoch, heig
 			order = append(order, p)
 		}
 	}
+	mismatch := false
 	for _, p := range order {
 		qctx := shared
 		if st.sweeps%2 == 1 {
@@ -863,9 +864,116 @@ func (st *c02State) checkOne(dev, devOwner *Account, chainID string, epoch, heig
 		} else if st.planModHeight == height {
 			sig += ":plan-modified-in-this-block"
 		}
+		mismatch = true
 		if r.Fail("pairing-verify-mismatch", sig, "%s: provider %s inPairing=%v but VerifyPairing(block=%d).valid=%v err=%v at height %d; pairing=[%s]; project existed at epoch start=%v", tag, p.Acc.Name, in[p.Acc.Addr], epoch, valid, verr, height, st.names(list), thenOK) {
 			break // known finding: one report per (key, chain) is enough
 		}
+	}
+	if !mismatch && !young && st.planModHeight != height {
+		st.crossEpoch(dev, chainID, epoch, height, in, tag)
+	}
+}
+
+// c02Verify: does pairing verification for (consumer key, provider, epoch) succeed on qctx?
+func (st *c02State) verify(qctx sdk.Context, dev *Account, p *ProviderActor, chainID string, block uint64) (bool, error) {
+	res, verr := st.s.K.Pairing.VerifyPairing(sdk.WrapSDKContext(qctx), &pairingtypes.QueryVerifyPairingRequest{ChainID: chainID, Client: dev.Addr, Provider: p.Acc.Addr, Block: block})
+	st.s.R.OracleEvals++
+	return verr == nil && res != nil && res.Valid, verr
+}
+
+// crossEpoch: clause 5 when the block also verifies pairings of ANOTHER epoch that is still in
+// memory for the same consumer and chain (a block normally carries relay payments and VerifyPairing
+// queries for the current and for earlier epochs side by side). Whatever was verified earlier in
+// the block, verification for the current epoch must keep answering exactly "is in the current
+// pairing" (`in`, just established), and verification for the other epoch must keep answering what
+// it answers on a branch of the block state where only that epoch is verified.
+// The tape (stream "c02x", 0 = skip) picks how far back the other epoch is and which epoch is
+// verified first. The first epoch is verified until one verification succeeds (only a successful
+// verification fills the per-block pairing relay cache), then every provider is verified for the
+// second epoch.
+func (st *c02State) crossEpoch(dev *Account, chainID string, epoch, height uint64, in map[string]bool, tag string) {
+	s := st.s
+	r := s.R
+	mode := r.Draw("c02x", 4)
+	if mode == 0 {
+		return
+	}
+	back := 1 + r.Draw("c02x", 3)
+	earliest := s.K.Epochstorage.GetEarliestEpochStart(s.Ctx)
+	other := epoch
+	for i := 0; i < back; i++ {
+		prev, err := s.K.Epochstorage.GetPreviousEpochStartForBlock(s.Ctx, other)
+		if err != nil || prev >= other || prev < earliest {
+			break
+		}
+		other = prev
+	}
+	if other == epoch {
+		r.Probe("c02_cross_epoch_no_other_epoch")
+		return
+	}
+	shared := st.query()
+	if mode != 2 {
+		// the other epoch first, then the current one against the current pairing
+		first := ""
+		for _, p := range s.Providers {
+			if ok, _ := st.verify(shared, dev, p, chainID, other); ok {
+				first = p.Acc.Name
+				if !in[p.Acc.Addr] {
+					r.Probe("c02_cross_epoch_pairings_differ")
+				}
+				break
+			}
+		}
+		if first == "" {
+			r.Probe("c02_cross_epoch_other_epoch_unpaired")
+			return
+		}
+		r.Probe("c02_cross_epoch_checked")
+		for _, p := range s.Providers {
+			valid, verr := st.verify(shared, dev, p, chainID, epoch)
+			if valid == in[p.Acc.Addr] {
+				continue
+			}
+			sig := "verify-ok-but-not-in-pairing"
+			if !valid {
+				sig = "in-pairing-but-verify-fails"
+			}
+			r.Fail("pairing-verify-mismatch", sig+":after-verifying-another-epoch-in-this-block",
+				"%s: provider %s inPairing=%v (current epoch %d) but VerifyPairing(block=%d).valid=%v err=%v at height %d, after VerifyPairing(provider %s, block=%d) succeeded on the same block state for this consumer and chain", tag, p.Acc.Name, in[p.Acc.Addr], epoch, epoch, valid, verr, height, first, other)
+		}
+		return
+	}
+	// the current epoch first (one member), then the other one against what verification for the
+	// other epoch answers on a branch of the block state on which no other epoch is ever verified
+	var member *ProviderActor
+	for _, p := range s.Providers {
+		if in[p.Acc.Addr] {
+			member = p
+			break
+		}
+	}
+	if member == nil {
+		r.Probe("c02_cross_epoch_current_epoch_unpaired")
+		return
+	}
+	alone := map[string]bool{}
+	single := st.query()
+	for _, p := range s.Providers {
+		ok, _ := st.verify(single, dev, p, chainID, other)
+		alone[p.Acc.Addr] = ok
+		if ok != in[p.Acc.Addr] {
+			r.Probe("c02_cross_epoch_pairings_differ")
+		}
+	}
+	if ok, _ := st.verify(shared, dev, member, chainID, epoch); !ok {
+		return // cannot happen: the main loop just saw it succeed
+	}
+	r.Probe("c02_cross_epoch_checked")
+	for _, p := range s.Providers {
+		valid, verr := st.verify(shared, dev, p, chainID, other)
+		r.Check(valid == alone[p.Acc.Addr], "pairing-verify-unstable", "earlier-epoch:answer-depends-on-other-verifications-in-this-block",
+			"%s: VerifyPairing(provider %s, block=%d) answers valid=%v (err=%v) after VerifyPairing(provider %s, block=%d = current epoch) succeeded on the same block state for this consumer and chain, but valid=%v on a branch of the same state where only epoch %d is verified (height %d)", tag, p.Acc.Name, other, valid, verr, member.Acc.Name, epoch, alone[p.Acc.Addr], other, height)
 	}
 }
 
